@@ -304,9 +304,7 @@ def shrink(v):
 def run_shard(desc, rec):
     rng = rng_for(desc)
     if desc['kind'] == 'nlargs':
-        atoms = ['\\flag', '\\flag*', '\\ttl{H}', '\\ttl{H}\\label{a}', '\\ttl', '\\full{a}', '\\full', '\\full x', '\\emb',
-                 '\\emb^a', '\\emb_b^c', ' x', 'y', ' ', '{', '}', '$', '\\begin{envf}', '\\begin{envf}+', '\\end{envf}',
-                 '\\alpha', '\n\n', '%c\n', '\\label{z}', '\\unk']
+        atoms = work.NLARGS_ATOMS
         for i in range(desc['count']):
             s = ''.join(rng.choice(atoms) for _ in range(rng.randint(1, 7)))
             rec.case()
